@@ -73,6 +73,7 @@ public:
 
     bool checkForImportCycles(const ImportSourcePtr &importSource, const History &history, const HistoryEpochPtr &h, const std::string &action);
     bool checkUnitsForCycles(const UnitsPtr &units, History &history);
+    bool checkUnitsForCycles(const UnitsPtr &units, History &history, std::vector<UnitsPtr> &localPath);
     bool checkComponentForCycles(const ComponentPtr &component, History &history);
 
     /**
@@ -146,18 +147,30 @@ std::string Importer::ImporterImpl::resolvingUrl(const ImportSourcePtr &importSo
 
 bool Importer::ImporterImpl::checkUnitsForCycles(const UnitsPtr &units, History &history)
 {
+    std::vector<UnitsPtr> localPath;
+    return checkUnitsForCycles(units, history, localPath);
+}
+
+bool Importer::ImporterImpl::checkUnitsForCycles(const UnitsPtr &units, History &history, std::vector<UnitsPtr> &localPath)
+{
     // Even if these units are not imported, they might have imported children.
     if (!units->isImport()) {
-        for (size_t index = 0; index < units->unitCount(); ++index) {
+        // Units that reference each other in a cycle are not an import issue (they are never defined, which is reported separately).
+        if (std::find(localPath.begin(), localPath.end(), units) != localPath.end()) {
+            return false;
+        }
+        localPath.push_back(units);
+        auto model = owningModel(units);
+        for (size_t index = 0; (model != nullptr) && (index < units->unitCount()); ++index) {
             std::string ref = units->unitAttributeReference(index);
             // If the child units are imported, check them too.
-            auto model = owningModel(units);
             if (model->hasUnits(ref)) {
-                if (checkUnitsForCycles(model->units(ref), history)) {
+                if (checkUnitsForCycles(model->units(ref), history, localPath)) {
                     return true;
                 }
             }
         }
+        localPath.pop_back();
         return false;
     }
 
@@ -192,7 +205,12 @@ bool Importer::ImporterImpl::checkUnitsForCycles(const UnitsPtr &units, History 
         return true;
     }
 
-    return checkUnitsForCycles(importedUnits, history);
+    // The history describes the chain of imports that leads to these units: take this import off again so that a
+    // sibling importing through the same files is not mistaken for a cycle.
+    bool result = checkUnitsForCycles(importedUnits, history, localPath);
+    history.pop_back();
+
+    return result;
 }
 
 bool Importer::ImporterImpl::checkComponentForCycles(const ComponentPtr &component, History &history)
